@@ -84,6 +84,17 @@ def replay(case):
     names = NAMESETS[rot % len(NAMESETS)]
     arches = ARCHSETS[(rot // len(NAMESETS)) % len(ARCHSETS)]
     focus = case.get("focus", "C12")
+    # the sibling builders of the same process accept source tree arches (documented there): what they saw must not
+    # change what Rpms.add accepts
+    try:
+        from productmd.extra_files import ExtraFiles
+        from productmd.modules import Modules
+        xf, mm = ExtraFiles(), Modules()
+        for a in ("src", "nosrc"):
+            xf.add("V", a, "Server/source/GPL", 1, {"md5": "0" * 32})
+            mm.add("V", a, "mod:1", "tag", "p/modules.yaml", "binary", [])
+    except Exception:
+        pass
     m = new_rpms()
     fails = []
     for step, ev in enumerate(case["hist"]):
@@ -91,6 +102,14 @@ def replay(case):
         out, exc = "ok", None
         try:
             if ev["op"] == "add":
+                if rot % 2:
+                    # the caller looked the name up with the public parser first and edited what it got (deriving a sibling package)
+                    try:
+                        import productmd.common
+                        d = productmd.common.parse_nvra(render_name(ev["r"], ev["form"], names))
+                        d["name"], d["epoch"], d["arch"] = d["name"] + "-debuginfo", 99, "src"
+                    except ValueError:
+                        pass
                 m.add(ev["v"], arch_of(ev["a"], arches, rot), render_name(ev["r"], ev["form"], names), PATHS[ev["path"]],
                       SIGS[ev["sig"]], "package" if ev["cat"] == "invalid" else ev["cat"],
                       None if ev["srpm"] == "none" else render_name(ev["srpm"], ev["sform"], names))
